@@ -303,6 +303,8 @@ def set_block(a, ts=(), Ds=None, val='zeros'):
         Ds = tuple(Ds.tolist())
     if len(Ds) != a.ndim_n:
         raise YastnError('Size of Ds is not consistent with tensor rank.')
+    if any(D <= 0 for D in Ds):
+        raise YastnError('Ds should be a sequence of positive ints.')
 
     if a.isdiag and Ds[0] != Ds[1]:
         raise YastnError("Diagonal tensor requires the same bond dimensions on both legs.")
